@@ -2,6 +2,7 @@ package main
 
 import (
 	"context"
+	"crypto/sha256"
 	"encoding/json"
 	"fmt"
 	"os"
@@ -308,6 +309,7 @@ func runCheck(id, tier string) int {
 	tGen := time.Since(t0)
 	pc.discharge()
 	pc.recheckNewHelpers(ps)
+	pc.retryWithInlining(ps)
 	if os.Getenv("GVC_VERBOSE") != "" {
 		fmt.Fprintf(os.Stderr, "timing: load+generate %.1fs, solve %.1fs\n", tGen.Seconds(), (time.Since(t0) - tGen).Seconds())
 	}
@@ -542,12 +544,107 @@ func (pc *propCheck) recheckNewHelpers(ps *propSpec) {
 	}
 }
 
+// retryWithInlining: a function under contract has an obligation that does not discharge, and it
+// calls functions of the module that have no contract and were too large to inline (the verifier saw
+// an unknown call there: arbitrary result, everything reachable havocked). Before that is reported,
+// the function is verified once more with those callees' bodies inlined -- strictly more precise, so
+// an obligation that fails only because a helper was extracted (and got no contract) goes away, and
+// one that fails for a reason stays. Only on failure, so the unchanged tree pays nothing.
+func (pc *propCheck) retryWithInlining(ps *propSpec) {
+	p := pc.P
+	failing := func(r *funcResult) bool {
+		for _, o := range r.vc.obls {
+			if o.MustFail || o.Cover || o.Result == nil || o.Kind == "engine" {
+				continue
+			}
+			if _, un := pc.unclaimedReason(o.Name); un {
+				continue
+			}
+			if o.Result.Status != "unsat" {
+				return true
+			}
+		}
+		return false
+	}
+	redo := map[string]bool{}
+	for _, r := range pc.Results {
+		if r.con == nil || p.fns[r.con.Full] == nil || r.stale != "" || !failing(r) {
+			continue
+		}
+		fn := p.fns[r.con.Full]
+		for _, b := range fn.Blocks {
+			for _, ins := range b.Instrs {
+				c, ok := ins.(*ssa.Call)
+				if !ok {
+					continue
+				}
+				callee := c.Call.StaticCallee()
+				if callee == nil || callee == fn || len(callee.Blocks) == 0 || !p.inModule(callee) || p.contracts[callee.String()] != nil || p.inlinableStatic(callee) {
+					continue
+				}
+				if len(callee.Blocks) > 60 {
+					continue // too large to be worth it
+				}
+				if p.forceInline == nil {
+					p.forceInline = map[string]bool{}
+				}
+				p.forceInline[callee.String()] = true
+				redo[r.con.Full] = true
+			}
+		}
+	}
+	if len(redo) == 0 {
+		return
+	}
+	var keep []*funcResult
+	for _, r := range pc.Results {
+		if r.con != nil && redo[r.con.Full] {
+			nr := p.verifyFunc(r.con)
+			if ps.Filter != nil {
+				var ko []*Obligation
+				for _, o := range nr.vc.obls {
+					if o.MustFail || o.Cover || o.Kind == "engine" || o.Kind == "contract-binding" || ps.Filter(o) {
+						ko = append(ko, o)
+					}
+				}
+				nr.vc.obls = ko
+			}
+			if nr.err != "" && r.err == "" {
+				keep = append(keep, r) // inlining took the function out of the subset: keep the first verdict
+				continue
+			}
+			keep = append(keep, nr)
+			pc.Extra["retried_with_inlining"] = append(pcStrs(pc, "retried_with_inlining"), r.con.FuncName)
+			continue
+		}
+		keep = append(keep, r)
+	}
+	pc.Results = keep
+	pc.Obls = nil
+	for _, r := range pc.Results {
+		pc.Obls = append(pc.Obls, r.vc.obls...)
+	}
+	pc.discharge()
+}
+
+func pcStrs(pc *propCheck, k string) []string {
+	if v, ok := pc.Extra[k].([]string); ok {
+		return v
+	}
+	return nil
+}
+
 func pcNotes(pc *propCheck) []string {
 	if v, ok := pc.Extra["in_context_of_callers"].([]string); ok {
 		return v
 	}
 	return nil
 }
+
+var (
+	queryCache   = map[string]SolverResult{}
+	queryCacheMu sync.Mutex
+)
 
 func (pc *propCheck) discharge() {
 	// write queries
@@ -582,7 +679,19 @@ func (pc *propCheck) discharge() {
 			continue
 		}
 		vc := byVC[o]
-		o.File = writeFile(pc.WorkDir, fmt.Sprintf("%04d_%s.smt2", i, safeFileName(o.Name)), vc.query(o))
+		q := vc.query(o)
+		qh := fmt.Sprintf("%x", sha256.Sum256([]byte(q)))
+		queryCacheMu.Lock()
+		cached, hit := queryCache[qh]
+		queryCacheMu.Unlock()
+		if hit {
+			// the same query was answered earlier in this run (a function re-verified with a callee inlined)
+			c := cached
+			o.Result = &c
+			continue
+		}
+		o.File = writeFile(pc.WorkDir, fmt.Sprintf("%04d_%s.smt2", i, safeFileName(o.Name)), q)
+		o.qhash = qh
 		wg.Add(1)
 		go func(o *Obligation) {
 			defer wg.Done()
@@ -601,6 +710,11 @@ func (pc *propCheck) discharge() {
 				r = solveFast(o.File, pc.Timeout, pc.Tier == "thorough")
 			}
 			o.Result = &r
+			if o.qhash != "" {
+				queryCacheMu.Lock()
+				queryCache[o.qhash] = r
+				queryCacheMu.Unlock()
+			}
 		}(o)
 	}
 	wg.Wait()
